@@ -107,6 +107,9 @@ func rightKeys(tag, variant, child string) string {
 			return `{"name": "ceil", "x": ` + child + `}`
 		case "unknownname":
 			return `{"name": "nosuchfunction"}`
+		case "protoname":
+			// the name of a method of a built-in type: those objects exist, but only as unbound templates
+			return `{"name": "Array.sum"}`
 		}
 		return `{"name": "ceil"}`
 	}
